@@ -221,6 +221,8 @@ func runC02(c *core.Ctx) {
 			c.Violation("reg -s|large-log", fmt.Sprintf("log of %d MiB with %d days: %s", sb.Len()>>20, days, bad), caseDoc{Args: args, Note: "generated log: one heading per day from 1990/01/01, 40 foods and 'kcal: 2' per day", Observed: map[string]any{"exit": res.Exit, "stderr": clip(res.Serr, 500), "rows": len(rows)}})
 		}
 	}
+	// the register while another register is alive in the same process
+	nestedReports(c, pool, c.N(120, 1500), nestedRegShape)
 	// selected day = heading between the bounds as instants, also when heading and bound share a second
 	c06SubSecond(c, [][]string{{"reg"}, {"reg", "--csv"}, {"reg", "--use-old-reg-reporter"}})
 	jobs, deaths := pool.Stats()
